@@ -181,11 +181,19 @@ class World(StackWorld):
             self.limit["S"] = sm or None
         c, s = self.build_stack(kind, lambda: cs, lambda: ss, [make_ser(ser, cfg["batched"])], [make_ser(ser, cfg["batched"])],
                                 copts, sopts)
-        self.start(s)
-        self.start(c)
         self.plan = {"C": self.make_messages("C"), "S": self.make_messages("S")}
         self.sent_ok = {"C": [], "S": []}
         self.cursor = {"C": 0, "S": 0}
+        # a session may send from inside onOpen() (a client session's HELLO always does): the transport is attached
+        # at that point, so the message must follow the transport's own handshake octets on the wire
+        for who, sess in (("C", cs), ("S", ss)):
+            if ch.flag("send-in-onOpen:" + who, 0.25):
+                def on_open(transport, who=who, sess=sess):
+                    self.run.probe("send-inside-onOpen")
+                    self.traffic_send(who, sess)
+                sess.hooks["onOpen"] = on_open
+        self.start(s)
+        self.start(c)
 
     def make_messages(self, who):
         ch = self.run.ch
